@@ -50,6 +50,7 @@ def check(index, ctx):
                             "stack(dim=0) + zeros_like", f"stack dims {[e['dim'] for e in st]}, zero fill sites {len(z)}", st[0]["loc"] if st else "")
                 ones = [c for c in _pipe.evs(res, "create") if c["fn"] == "ones_like" and c["like"] == ["losses[i]"]]
                 ctx.require(bool(ones), "I", "Init: cotangent of each loss is ones", "ones_like(loss)", "task cotangent is not ones_like(loss)", "")
+    isolated_blocks(index, ctx)
     idiom_rules(ctx, index, "L")
     from .C07 import partition_rule
 
@@ -57,3 +58,51 @@ def check(index, ctx):
     ctx.floor("layout sites checked", n, 40)
     _pipe.common_evidence(ctx, index)
     ctx.assumptions.append("values of vector-Jacobian products, linearity in the cotangents and chaining are properties of torch.autograd and are NOT decided")
+
+
+def isolated_blocks(index, ctx):
+    """Each block applied on its own to a dictionary whose insertion order is unrelated to the order of the keys given to
+    the constructor (the pipelines of backward/mtl_backward happen to build both from one collection)."""
+    from ..pipeline import PipeAnalysis
+    from ..pipeops import key_tv, keys_list, opaque, Q
+    from ..values import DictV, ListV, ObjV
+
+    P = PipeAnalysis(index)
+    I = P.interp
+    T = "torchjd.autojac._transform"
+
+    def tdict(cls_name, val):
+        cls = index.get_class(f"{T}.tensor_dict.{cls_name}")
+        d = DictV(items=None, keys=ListV(items=None, elem=key_tv("K"), order=(("K",), "dict-insertion")), val=val)
+        res = I.run_paths(lambda: I.instantiate(cls, [d], {}, cls.node, None))
+        objs = [r.value for r in res if r.kind == "return"]
+        return objs[0] if objs else None
+
+    blocks = [
+        ("Aggregate", f"{T}.aggregate.Aggregate", lambda: [P.aggregator(), keys_list("K")], "Jacobians", opaque(frozenset(["jac"]), axes=("R", Q), dtype="dt:=key")),
+        ("Diagonalize", f"{T}.diagonalize.Diagonalize", lambda: [keys_list("K")], "Gradients", opaque(frozenset(["grad"]), dtype="dt:=key")),
+    ]
+    n = 0
+    for name, q, mk, dcls, val in blocks:
+        cls = index.get_class(q)
+        res = I.run_paths(lambda: I.instantiate(cls, mk(), {}, cls.node, None))
+        objs = [r.value for r in res if r.kind == "return"]
+        inp = tdict(dcls, val)
+        if not objs or inp is None:
+            ctx.undecided("L", f"{name}: isolated application", "could not construct the block / its input", cls.loc())
+            continue
+        P.ops.seq = 0
+        runs = I.run_paths(lambda: I.call_value(objs[0], [inp], {}, cls.node, None))
+        for r in runs:
+            if r.kind != "return":
+                continue
+            unk = [e for e in r.events if e["kind"] in ("unknown", "unknown_call")]
+            if unk:
+                ctx.undecided("L", f"{name}: isolated application", f"construct outside the analysed subset: {unk[0]['loc']} `{unk[0]['text']}`", unk[0]["loc"])
+                continue
+            n += _layout.check_layout(ctx, "L", r)
+            if name == "Aggregate":
+                agg = [e for e in r.events if e["kind"] == "aggregator_call"]
+                if agg:
+                    ctx.require(len(agg) == 1, "A", "Aggregate (isolated): aggregator applied once", "one call", f"{len(agg)} calls", agg[0]["loc"], nontrivial=False)
+    ctx.floor("layout sites of isolated blocks", n, 4)
